@@ -111,6 +111,7 @@ class P(Prop):
         (M, "TV.C05.spatial_stamps_monotone", "S2: spatial mode, stamps that never decrease (repeats allowed), not before 1970: the outputs carry the calendar stamps readUnixMs(m) with m = floor(1000 t) the millisecond of the interpolated time; these m never decrease along the output and each stamp is well formed and reads back as m ms: the stamps actually carried never decrease (exact arithmetic)"),
         (M, "TV.C05.stamp_is_readUnixTime", "S3: for EVERY instant t >= 0 (whole millisecond or not, e.g. an interpolated time) ObsTime.readUnixTime(t) mirrored operation for operation on the fractional seconds (stampG = C03's readUnixG: year loop with its fuel, month loop, truncated divisions, ms = int((t - int(t)) * 1000)) ends and returns the calendar fields of C03's integer reader on the millisecond floor(1000 t): stampG = stampOf, a theorem instead of a definition (exact arithmetic, exact int())"),
         (M, "TV.C05.spatial_stamps_readUnixTime", "S2': spatial mode, stamps that never decrease, not before 1970: the timestamps the mirrored code attaches (readUnixTime run on each interpolated, generally non-integral time) are exactly stampOf = readUnixMs(floor(1000 t)), and these milliseconds never decrease along the output (exact arithmetic)"),
+        (M, "TV.C05.spatial_first_stamp_carried", "S2'': the first output of __resampleSpatial is getFirstObs().copy() and carries the first fix's own ObsTime (spatialStampsG) instead of readUnixTime of its time; for a well-formed stamp this is the same list of timestamps as re-reading every output (stampG), so S2' describes the stamps the track really holds (exact arithmetic: C03's round trip; in doubles the carried stamp may be 1 ms later -- the harness compares output 0 with the first fix's own stamp)"),
         (M, "TV.C05.temporal_stamps_readUnixTime", "S1': S1 for instants that are NOT whole milliseconds: the observation returned for each requested t in (tini, tfin] (any order, first fix not before 1970) carries readUnixTime(t) as the mirrored code computes it = the calendar stamp of the millisecond floor(1000 t) the instant falls in (exact arithmetic)"),
         (M, "TV.C05.spatial_legs", "T3b: the accumulated leg lengths are the non-negative 2D distances (square = dx^2+dy^2) for any sqrt meeting math.sqrt's contract"),
         (M, "TV.C05.spatial_distance_along_leg", "T3c: the point at fraction f of a leg is at planimetric distance f|ab| from its start, so with T3 the sample k lies at distance k ds along the original 2D polyline"),
